@@ -352,8 +352,10 @@ def report(ctx: click.Context, tjp_file: Optional[str], output_csv: bool, output
                 "This may indicate a scheduling issue with your project."
             )
 
-        # Get the primary output file (first one)
-        primary_output = output_files[0]
+        # The report to emit is the auto-generated one; reports defined by the project file
+        # itself land in the same directory and must not be picked up instead
+        auto_output = temp_output_dir / f"{auto_report_id}.{output_format}"
+        primary_output = auto_output if auto_output.exists() else output_files[0]
 
         if verbose:
             logger.debug("Reading report from: %s", primary_output)
